@@ -632,6 +632,11 @@ def run_task(task):
             finally:
                 import shutil
                 shutil.rmtree(d, ignore_errors=True)
+        elif task["kind"] == "dense":
+            for case in dense_length_cases()[task["lo"]::task["step"]]:
+                res.evaluations += 1
+                res.labels["dense:chunk_lengths"] += 1
+                run_history(EoReader, bytes.fromhex(case["data"]), case["ops"], {})
         elif task["kind"] == "long":
             for case in long_cases()[task["lo"]::task["step"]]:
                 res.evaluations += 1
@@ -677,12 +682,28 @@ def plan(tier, seed):
     tasks += [{"kind": "hyp", "n": HYP_CASES[tier], "seed": seed * 1000 + w} for w in range(HYP_WORKERS)]
     tasks += [{"kind": "long", "lo": i, "step": 8} for i in range(8)]
     tasks.append({"kind": "opt"})
+    tasks += [{"kind": "dense", "lo": i, "step": 16} for i in range(16)]
     if tier == "thorough" and os.path.isdir(os.path.join(os.path.dirname(os.path.dirname(os.path.abspath(__file__))), ".deps", "atheris")):
         tasks += [{"kind": "atheris", "runs": 60000, "seed": seed * 1000 + 700 + w, "corpus": w % 2 == 0} for w in range(16)]
     return tasks
 
 
 LONG_LENGTHS = (252, 253, 254, 255, 256, 257, 64007, 64008, 64009, 64010, 65535, 65536, 70001, 200003)
+
+
+def dense_length_cases():
+    """One short history per chunk length L for EVERY L up to 8200 and around selected larger sizes: where
+    the first break of a chunk sits must not matter (block-wise or windowed break searches have joints)."""
+    big = []
+    for centre in (15876, 16384, 32261, 32768, 65030, 65536, 131072):
+        big += list(range(centre - 3, centre + 4))
+    out = []
+    for L in list(range(0, 8201)) + big:
+        data = b"\x01" * L + b"\xff\x02\x03\xff\x04"
+        h = [[0, "mode", True, None], [0, "get_byte", None, None], [0, "next_chunk", None, None],
+             [0, "get_short", None, None], [0, "next_chunk", None, None], [0, "get_char", None, None]]
+        out.append({"data": data.hex(), "ops": h})
+    return out
 
 
 def opt_cases():
